@@ -104,6 +104,9 @@ pub fn occurrences<const N: usize>(b: &CircularBuffer<N, Tok>, id: u8) -> usize 
 /// one place: in the buffer, held by the harness, or destroyed (exactly once).  Several objects
 /// may share an id (clones of one source): then the number of places equals the number made.
 pub fn conserve_range<const N: usize>(b: Option<&CircularBuffer<N, Tok>>, held: &Ids, base: u8, count: usize) {
+    if !crate::tok::TRACK {
+        return;
+    }
     let mut k = 0;
     while k < count {
         let id = base.wrapping_add(k as u8);
